@@ -8,7 +8,7 @@ import os
 import sys
 import traceback
 
-from . import AnalysisError, assert_not_imported
+from . import AnalysisError, ModelViolation, assert_not_imported
 from .model import Model
 from .report import Ctx, finish
 
@@ -26,7 +26,27 @@ def run_property(prop: str, tier: str, replay: str | None = None,
         from .repo import Repo
         model = Model(Repo(root))
         ctx = Ctx(prop, tier, model)
-        mod.run(ctx)
+        try:
+            mod.run(ctx)
+        except ModelViolation as mv:
+            ctx.ob(mv.key, False, mv.where, mv.what)
+            ctx.extra["aborted_after"] = (
+                f"{mv.key}: the table this check works from could not be "
+                "built because the construct it is read from violates the rule; "
+                "the remaining obligations were not evaluated")
+            return finish(ctx, None, write_evidence)
+        except AnalysisError as e:
+            from .report import load_known
+            known = {k["key"] for k in load_known()
+                     if k.get("property") == prop and k.get("status") == "known"}
+            if not any(o.key not in known for o in ctx.failures):
+                raise
+            # definite violations were already established when the analyser met
+            # something it could not read: they stand on their own
+            print(f"ANALYSIS-INCOMPLETE property={prop}: {e} (the violations "
+                  "established before that point are reported)")
+            ctx.extra["aborted_after"] = f"analysis stopped: {e}"
+            return finish(ctx, None, write_evidence)
         assert_not_imported()
         if tier == "thorough" and root is None and not replay:
             from .report import load_known
